@@ -363,11 +363,12 @@ func (m *Machine) runBlock(fr *frame) {
 		case *ssa.RunDefers:
 			m.runDefers(fr)
 		case *ssa.Go:
-			unsupportedf("go statement at %s", m.at(ins.Pos()))
+			// goroutines are not started (only badger's background GC loop is ever spawned by the encoded code)
+			m.Stats.FuncsHit["not-started:go "+ins.Call.Value.Name()+" at "+m.at(ins.Pos())]++
 		case *ssa.Select:
 			unsupportedf("select at %s", m.at(ins.Pos()))
 		case *ssa.Send:
-			unsupportedf("channel send at %s", m.at(ins.Pos()))
+			m.Stats.FuncsHit["ignored:channel send at "+m.at(ins.Pos())]++
 		case *ssa.Panic:
 			v := m.get(fr, ins.X)
 			m.goPanicf("panic(%s) at %s", m.describe(v), m.at(ins.Pos()))
